@@ -35,6 +35,9 @@ CHECKS = {
  'C07': dict(cat='exploration', engine='E2', tech='bounded-exhaustive product enumeration through CSV/Excel/AIF export and import, field-by-field comparison; refusal alphabet for out-of-domain values',
    text='format (csv, xls, aif) x class x 12 unit configurations x data shapes (1-7 points, 5 branch patterns incl. user-assigned marks, extra numeric/text columns, missing values) x the per-format in-domain metadata alphabet x target (string, file) x all 16 models (DR/DA fitted, small-magnitude parameters) x material with properties x points generated from a model; compared field by field (material+properties, adsorbate, temperature, unit labels, data at 8 decimals, branch marks and order, model name/parameters/ranges/rmse/predictions) and with ==. A per-format out-of-domain alphabet (separator, newline, quote, texts spelling numbers/booleans/none/lists, empty text, lists, nested dicts, keys with blanks) must be refused with a pyGAPS error or come back unchanged.',
    note='Value domains as the property defines them; 5 == 5.0 counts as the same value, booleans and texts must keep their kind.', ref='§4 C07'),
+ 'C10': dict(cat='exploration', engine='E2', tech='bounded-exhaustive enumeration of model x parameter lattice x pressure lattice x input shapes; algebraic identities and limits of the defining equations',
+   text='All 16 models x a parameter lattice inside the declared bounds (geometric points plus documented special values) x 7 fractions of the validity range x six input shapes: inverse identities in both directions, scalar/array agreement, zero point, non-negativity, monotonicity and saturation bound on a dense 400-point scan (only where the defining equation is monotone), Henry limit against the constant of the defining equation; evaluation through a ModelIsotherm in 5 foreign representations equals bare model composed with the unit conversion (both directions).',
+   note='Numerical inverses judged only where the library returns; tolerances tied to optimiser stopping tolerances; lattice phase by VERIF_SEED.', ref='§4 C10'),
 }
 
 def main():
